@@ -3,6 +3,7 @@ package main
 import (
 	"encoding/json"
 	"fmt"
+	"github.com/avfs/avfs"
 	"os"
 	"strings"
 
@@ -13,6 +14,9 @@ import (
 // pairSys is engine A's system for part (C): a Linux-typed and a Windows-typed
 // real instance of one file-system kind driven in lock-step.
 type pairSys struct {
+	name    string // system name as given
+	tree    bool
+	vol     string
 	kind    string // MemFS | OrefaFS
 	tier    string
 	ops     []fsx.Call // portable form
@@ -34,6 +38,43 @@ func (s *pairSys) Reset() error {
 
 	if s.w, _, err = newSide(s.kind, true); err != nil {
 		return err
+	}
+
+	if s.vol != "" {
+		vm, ok := s.w.v.(avfs.VolumeManager)
+		if !ok {
+			return fmt.Errorf("%s has no volume management", s.kind)
+		}
+
+		if err := vm.VolumeAdd(s.vol); err != nil {
+			return fmt.Errorf("VolumeAdd(%s): %v", s.vol, err)
+		}
+
+		s.w.root = s.vol + `\`
+
+		if err := s.w.v.MkdirAll(s.w.root+"tmp", 0o777); err != nil {
+			return fmt.Errorf("MkdirAll on %s: %v", s.vol, err)
+		}
+
+		if _, r := s.w.do(fsx.Call{Op: "Chdir", A: "/"}); r.Kind != "ok" {
+			return fmt.Errorf("Chdir to %s: %s", s.w.root, r.Kind)
+		}
+	}
+
+	if s.tree {
+		for _, c := range []fsx.Call{
+			{Op: "Mkdir", A: "/a", Perm: 0o755},
+			{Op: "WriteFile", A: "/a/a", Data: "hello", Perm: 0o644},
+			{Op: "Link", A: "/a/a", B: "/b"},
+		} {
+			if _, r := s.l.do(c); r.Kind != "ok" {
+				return fmt.Errorf("setup (Linux-typed) %s: %s", c, r.Kind)
+			}
+
+			if _, r := s.w.do(c); r.Kind != "ok" {
+				return fmt.Errorf("setup (Windows-typed) %s: %s", c, r.Kind)
+			}
+		}
 	}
 
 	ld, _ := s.l.dump()
@@ -414,6 +455,24 @@ func pairFactory(tier string) func(string) bfs.System {
 	return func(name string) bfs.System {
 		setSeq()
 
-		return &pairSys{kind: name, tier: tier, ops: buildOps(name, tier)}
+		// name = kind[@D][+tree]: "@D" puts the Windows-typed side on an added
+		// volume D:, "+tree" starts from a non-initial state (/a/{a}, /b second
+		// name of /a/a)
+		ps := &pairSys{name: name, tier: tier}
+		ps.kind = name
+
+		if i := strings.IndexAny(name, "@+"); i >= 0 {
+			ps.kind = name[:i]
+		}
+
+		ps.tree = strings.Contains(name, "+tree")
+
+		if strings.Contains(name, "@D") {
+			ps.vol = "D:"
+		}
+
+		ps.ops = buildOps(ps.kind, tier)
+
+		return ps
 	}
 }
